@@ -139,7 +139,8 @@ def first_kind(rs: dict, stage: str) -> str:
 
 
 def cfgs_for(tier: str) -> list[Cfg]:
-    good = dict(reader_shaped=True, labels=False)
+    # (with_halt: `with (actor X) { end; }` - behind a context op nothing stops the routine, for both compilers and decompilers)
+    good = dict(reader_shaped=True, labels=False, with_halt=0.2)
     return [Cfg(max_depth=2, max_stmts=2, max_routines=1, **good), Cfg(max_depth=2, max_stmts=3, max_routines=2, **good),
             Cfg(max_depth=3, max_stmts=3, max_routines=2, **good), Cfg(flat=True, max_stmts=3, max_routines=2, **good),
             Cfg(max_depth=2, max_stmts=3, max_routines=2, loops=False, **good), Cfg(max_depth=2, max_stmts=3, max_routines=1, switches=False, **good),
